@@ -1,7 +1,8 @@
-CONSTANTS Objects = {"p1", "t1", "t2"}
+CONSTANTS Objects = {"p1", "t1", "e1", "e2", "u1", "f1"}
 Addrs = {"A", "B"}
-ById = FALSE
-MaxSteps = 7
+KeyBy = "object"
+TruthTest = FALSE
+MaxSteps = 6
 SPECIFICATION Spec
 INVARIANT ActionsOfGivenObject
 INVARIANT TypeOK
